@@ -149,8 +149,11 @@ def complexsqrt_records():
     with np.errstate(all="ignore"):
         arr_r = f_np(np.array([float(a) for a in xs], dtype=float))
         arr_c = f_np(np.array([complex(float(a), 0.0) for a in xs], dtype=complex))
+        # the same real numbers with a negative zero as imaginary part (what numpy.conj leaves behind on the real axis)
+        arr_n = f_np(np.conj(np.array([complex(float(a), 0.0) for a in xs], dtype=complex)))
         for i, a in enumerate(xs):
-            rows = [("numpy", "float64-array", arr_r[i]), ("numpy", "complex128-array", arr_c[i]), ("numpy", "python-float", f_np(float(a)))]
+            rows = [("numpy", "float64-array", arr_r[i]), ("numpy", "complex128-array", arr_c[i]), ("numpy", "python-float", f_np(float(a))),
+                    ("numpy", "complex128-array(imag=-0.0)", arr_n[i])]
             try:
                 rows.append(("pycode", "python-float", f_py(float(a))))
                 rows.append(("pycode", "python-complex", f_py(complex(float(a), 0.0))))
@@ -176,8 +179,10 @@ def lambdify_records(points, refs):
     arr = np.array([[float(sp.Rational(p[0])), float(sp.Rational(p[1])), float(sp.Rational(p[2]))] for p in points])
     for name in VARIANTS:
         f = sp.lambdify((s, m1, m2), classes[name](s, m1, m2).doit(), "numpy")
-        for dtype in ("float64", "complex128"):
+        for dtype in ("float64", "complex128", "complex128(imag=-0.0)"):
             a = arr.astype(float if dtype == "float64" else complex)
+            if dtype.endswith("(imag=-0.0)"):
+                a = np.conj(a)
             with np.errstate(all="ignore"), warnings.catch_warnings():
                 warnings.simplefilter("ignore")
                 vals = np.broadcast_to(f(a[:, 0], a[:, 1], a[:, 2]), (len(points),))
